@@ -863,8 +863,10 @@ int vorbis_synthesis_blockin(vorbis_dsp_state *v,vorbis_block *vb){
 
       v->granulepos=vb->granulepos;
 
-      /* is this a short page? */
-      if(b->sample_count>v->granulepos){
+      /* is this a short page? (there is nothing to trim while no block
+         has been decoded, eg when a seek is only tracking position; the
+         -1 in pcm_returned is a marker, not a position) */
+      if(v->pcm_returned!=-1 && b->sample_count>v->granulepos){
         /* corner case; if this is both the first and last audio page,
            then spec says the end is cut, not beginning */
        long extra=b->sample_count-vb->granulepos;
